@@ -119,14 +119,18 @@ def preds (u : U) (kind : String) (args : List Int) (pre post : Obs) (tol : List
       match cpOf ty.toNat with
       | none => some ("C05_user_gate", "accepted-unknown-type")
       | some cp =>
+        -- "the price feed is down" = x/pricefeed has no current price for the spot or for the liquidation market
+        -- in force (the harness's own `GetCurrentPrice` reading in the pre-state); the status flags the cdp module
+        -- keeps on record are the mechanism, they only refine the tag
+        let flags := s!"recorded-flags=spot:{showBool (sPre.status cp.spot)},liquidation:{showBool (sPre.status cp.liq)}"
         let down :=
-          if sPre.status cp.spot == false then some "spot-flag-down"
-          else if sPre.status cp.liq == false then some "liquidation-flag-down"
-          else if (sPre.price cp.spot).isNone then some "spot-price-missing"
-          else if (sPre.price cp.liq).isNone then some "liquidation-price-missing"
+          if (sPre.price cp.spot).isNone then some s!"accepted-while-spot-price-unavailable {flags}"
+          else if (sPre.price cp.liq).isNone then some s!"accepted-while-liquidation-price-unavailable {flags}"
+          else if sPre.status cp.spot == false then some "accepted-spot-flag-down"
+          else if sPre.status cp.liq == false then some "accepted-liquidation-flag-down"
           else none
         match down with
-        | some why => some ("C05_feed_gate", s!"{kind}-accepted-{why}")
+        | some why => some (s!"C05_feed_gate_{kind}", why)
         | none =>
           if kind == "deposit" then none else
           match post.cdps.find? (fun e => e.2.owner == o.toNat && e.2.ty == ty.toNat) with
@@ -396,8 +400,46 @@ def handleLotSum : Handler
     | _, _, _, _, _ => badInput "parse"
   | _ => badInput "arity"
 
+/-! ### the price-feed gate -/
+
+/-- `c05.gate` — one line per create / draw / deposit / withdraw of a `c05.op` history:
+      kind ty listed spotMarket liqMarket spotAvail liqAvail spotFlag liqFlag beginSpot beginLiq "=>" class error
+    spotAvail / liqAvail: x/pricefeed `GetCurrentPrice` of the type's spot / liquidation market in force answered with
+    a price when the operation ran (the harness's own reading — the oracle of "the price feed is down");
+    spotFlag / liqFlag: the market status the cdp module had on record (diagnosis only);
+    beginSpot / beginLiq: the same availability when the begin blocker of the current block ran ("-" = unknown).
+    `C05_feed_gate_<kind>`: accepted while either price is unavailable ⇒ PREDFAIL.  Converse (exact on the code as
+    it stands: every begin block records the availability of the spot market of every listed type and, when that is
+    available, of its liquidation market; prices only change in the pricefeed end blocker): refused AS "price feed
+    down" although both prices are available and were when the begin blocker ran ⇒ PREDFAIL.  The model's reading
+    (`bbType`: flag = availability) is compared last. -/
+def handleGate : Handler
+  | [kind, _ty, listed, _sm, _lm, sA, lA, sF, lF, bS, bL, _, cls, errc] =>
+    match bool? listed, bool? sA, bool? lA, bool? sF, bool? lF with
+    | some listed, some sA, some lA, some sF, some lF =>
+      if !(["create", "draw", "deposit", "withdraw"].contains kind) then badInput "kind" else
+      if !listed then "ok" else     -- an accepted action on an unlisted type is `C05_user_gate accepted-unknown-type` (c05.op)
+      let thm := s!"C05_feed_gate_{kind}"
+      let flags := s!"recorded-flags=spot:{showBool sF},liquidation:{showBool lF}"
+      if cls == "ok" && !sA then predfail thm s!"accepted-while-spot-price-unavailable {flags}"
+      else if cls == "ok" && !lA then predfail thm s!"accepted-while-liquidation-price-unavailable {flags}"
+      else if cls == "err" && errc == "no-price-found-for-collateral" && sA && lA && bS == "1" && bL == "1" then
+        predfail thm s!"refused-as-feed-down-while-both-prices-available-since-the-begin-blocker {flags}"
+      else if bS == "-" || bL == "-" then "ok"
+      else
+        -- model: after a begin block flag(spot) = availability(spot), and flag(liq) = availability(liq) when the
+        -- spot price is available; nothing moves either before the next block
+        let bSa := bS == "1"
+        let bLa := bL == "1"
+        if bSa != sA || bLa != lA then mismatch "priceAvailabilityWithinBlock" s!"{bS},{bL}" s!"{showBool sA},{showBool lA}"
+        else if sF != sA then mismatch "spotMarketStatus" (showBool sA) (showBool sF)
+        else if sA && lF != lA then mismatch "liquidationMarketStatus" (showBool lA) (showBool lF)
+        else "ok"
+    | _, _, _, _, _ => badInput "parse"
+  | _ => badInput "arity"
+
 /-- handlers of property C05: (command name, handler) -/
 def handlers : List (String × Handler) :=
   [("c05.ratio", handleRatio), ("c05.block", handleBlock), ("c05.op", handleOp),
-   ("c05.lots", handleLots), ("c05.lotsum", handleLotSum)]
+   ("c05.lots", handleLots), ("c05.lotsum", handleLotSum), ("c05.gate", handleGate)]
 end Drv.C05
